@@ -9,8 +9,23 @@ Import ListNotations.
 Theorem C09_code_facts :
   translator_ok = true /\ dict_branch_aliases = false /\
   pairs_key_index = 0%nat /\ pairs_value_index = 1%nat /\ rebuild_loop_is_canonical = true /\
-  commit_is_atomic = true.
+  commit_is_atomic = true /\ setsp_keeps_values = true.
 Proof. vm_compute. repeat split. Qed.
+
+(* the setter ends with self.set_sp(); with the extracted fact (no statement of set_sp writes the values) the setter followed
+   by its tail is, on every history, the setter the theorems below are about *)
+Theorem C09_tail_keeps : forall decl ops s,
+  fold_left (fun st o => fst (step_tail decl dict_branch_aliases setsp_keeps_values st o)) ops s =
+  fold_left (fun st o => fst (step decl dict_branch_aliases st o)) ops s.
+Proof. intros. apply tail_keeps. Qed.
+Print Assumptions C09_tail_keeps.
+
+(* a set_sp that resets the values violates the statement (the shape of seeded change C09r7a) *)
+Theorem C09_tail_wipes_refuted :
+  bound [0%nat; 1%nat] (fst (step_tail [0%nat; 1%nat] false false (init [0%nat; 1%nat]) (SetList [7; 8]%Z))) 0%nat = 0%Z /\
+  bound [0%nat; 1%nat] (fst (step_tail [0%nat; 1%nat] false true (init [0%nat; 1%nat]) (SetList [7; 8]%Z))) 0%nat = 7%Z.
+Proof. exact tail_wipes_refuted. Qed.
+Print Assumptions C09_tail_wipes_refuted.
 
 (* names that `_extractParamSymbol` accepts but that are not parameters (state names, t) reach the rebuild loop; with the
    extracted commit order the setter refined with that acceptance test (ParamsAtomic.step_f) is, on every history, the
